@@ -15,7 +15,10 @@ one process), D4 (divisions changes at every place of a two-measure part: a late
 divisions table lies in its middle, entries at the barline and in the middle, ...; the independent reader converts every
 backup/forward/duration with the divisions value in force), N1/N2 (number forms: the numbers handed to the construction
 API - voice, staff, times, octave/alter, dots and tuplet ratios, measure/ending/group numbers, signatures, clef, fingering,
-tempo, quarter durations - as numpy scalars instead of Python ints, mc/c03_model.number_form; the score is the same score).
+tempo, quarter durations - as numpy scalars instead of Python ints, mc/c03_model.number_form; the score is the same score),
+M1-M5 (magnitude of the numbers of ticks: the small families of A, D1, B1, C1 and the feature cores with every time and
+divisions value multiplied by a factor up to 2^31+1 and the music moved behind an empty measure of up to 2^31+1 ticks,
+mc/c03_gen.magnify; every reference value is computed in exact quarters from the spec, so it is the same at every magnitude).
 
 Clauses: export-total / import-total / reexport-total (no exception), roundtrip-<attribute group>
 (load(save(s)) == s on the statement's attributes), file-denotes-sounding-notes (independent reader),
@@ -70,6 +73,11 @@ ASSUMPTIONS = [
     "(numpy.int64, numpy.int32: what the rows of a note array or any numpy computation yield) is the same score as the one "
     "built from the equal Python ints, so all clauses apply to it unchanged and the loaded score is compared by value "
     "(numpy.int64(2) == 2); unsigned and floating types are not generated (their arithmetic differs from int arithmetic)",
+    "magnitudes (M1-M5): MusicXML puts no upper bound on <divisions> or <duration> (positive numbers), and the score API "
+    "takes any Python int as a time or quarter duration, so the same music on a grid of up to 3*(2^31+1) divisions per "
+    "quarter, and music that follows an empty irregular measure (named 'L', no rest in it: its length is what the file "
+    "says by a <forward>) of up to 2^31+1 ticks, are scores MusicXML can express; all clauses apply unchanged and all "
+    "numbers are compared exactly (Python ints / Fractions, no float tolerance)",
     "lxml parsing/serialisation is trusted; the independent reader pairs ties by pitch and time",
 ]
 CHUNK = 40
@@ -386,6 +394,37 @@ def spaces(tier, seed):
                     "note, flat key, octave clef, wedge, fermata / three parts in nested numbered groups); every family that has a "
                     "value in the score alone, every pair of families and all of them together x both types"))
     sp.append(Space("G-file-io", G.gen_G_fileio, True, "a sample of E and C2 scores written to a path / a binary file object and loaded from a path"))
+    m0 = ("magnitude of the numbers of ticks [factor, offset]: every time and every divisions value of the score is "
+          "multiplied by factor in {1, 480, 10080, 302400, 2^24+1, 2^31+1} (the same music on a finer tick grid: divisions "
+          "up to 3*(2^31+1) per quarter, single durations, backups and forwards up to 4*(2^31+1) ticks), then an empty "
+          "irregular measure of offset in {0, 2^24+1, 2^31+1} ticks is put before the music (every onset of the music and "
+          "every running position of the reader that far from 0); all 17 magnitudes but [1, 0]; ")
+    for mname, fam, MB, mtxt in (
+        ("M1-magnitude-core", G.fam_M_cores, 32,
+         "one 2/4 measure (4 units of an eighth), all sets of <=2 events: span x voice{1,2} (staff=voice) x {note, rest}, "
+         "symbolic durations explicit / estimated by the library"),
+        ("M2-magnitude-divisions-change", G.fam_M_divisions, 32,
+         "divisions change q0->q1 (times the factor) in (1,2),(2,1) in the middle of a 2/4 measure and at the barline of "
+         "two 1/4 measures, in (2,3),(3,2) in the middle of a 2/4 measure; all cores of <=2 events not crossing the "
+         "change (family of D1)"),
+        ("M3-magnitude-ties", G.fam_M_ties, 8,
+         "three 1/4 measures; chains of 2-3 contiguous equal-pitch notes, voices {1,2}^k, every non-empty subset of tie "
+         "links (family of B1)"),
+        ("M4-magnitude-decorations", G.fam_M_decorations, 32,
+         "every single timeline decoration (note fermata, dynamics p/f/sfz, tempo word, tempo mark, words with and "
+         "without dashes, wedge +/-, barline fermata) at every grid time / time interval of every 1-note core (span x "
+         "voice{1,2}) of one 2/4 measure and of two 1/4 measures (family of C1)"),
+        ("M5-magnitude-features", G.fam_M_features, 16,
+         "the five feature cores of N2, every single triplet bracket of C3, all chord ties of B2, all part/group "
+         "forests of E (parts with different divisions), every single key / time / clef change of D2, all repeats and "
+         "endings of F"),
+    ):
+        gen = G.gen_M(fam, mname.split("-")[0])
+        if q:
+            sp.append(Space(mname + "-block", G.stride(gen, MB, seed % MB), True,
+                            "block %d of %d (index stride, magnitude = outer loop) of: " % (seed % MB, MB) + m0 + mtxt))
+        else:
+            sp.append(Space(mname, gen, True, m0 + mtxt))
     if not q:
         sp.append(Space("A1-core-1measure-4", lambda: G.gen_A(one, 4, staff_is_voice=True, nmin=4), True,
                         "one 2/4 measure, all sets of 4 events: span x voice{1,2} (staff=voice) x {note,rest}"))
